@@ -55,6 +55,8 @@ type World struct {
 	gin       *gin.Engine
 	// CheckJobs makes RunJob verify each job's row diff against its criterion
 	CheckJobs bool
+	// SeekRows makes SeekTime verify the stored deliveries right after the call
+	SeekRows bool
 	// NoJobs makes RunJob a no-op that still takes its time slot (twin runs)
 	NoJobs bool
 	// PublishFaultAt, when > 0, makes the next Publish run its first attempt
@@ -1261,6 +1263,10 @@ func (w *World) SeekTime(name string, t time.Time) {
 		w.expectCode("C12", "Seek(dead sub)", err, codes.NotFound)
 		return
 	}
+	if err == nil {
+		// read off the rows, so it needs no model of this subscription
+		w.checkSeekRows(s, t, lo, hi)
+	}
 	if s.Wild {
 		return
 	}
@@ -1314,6 +1320,48 @@ func (w *World) SeekTime(name string, t time.Time) {
 		}
 	}
 	w.stat("seeks", 1)
+}
+
+// checkSeekRows is the seek-to-time clause read off the stored state right after
+// the call returned: of the subscription's deliveries whose retention had not
+// ended, exactly those published after t are outstanding. (The model alone cannot
+// say this for deliveries it must be lenient about - e.g. a revived one that has
+// used up its attempts is due for dead-lettering, not for delivery.)
+func (w *World) checkSeekRows(s *Sub, t, lo, hi time.Time) {
+	if !w.SeekRows {
+		return
+	}
+	d, err := rig.TakeDump(w.E.RawDB())
+	if err != nil {
+		return
+	}
+	subID := ""
+	for _, r := range d["subscriptions"] {
+		if r["name"] == s.Name && r["deleted_at"] == "NULL" {
+			subID = r["id"]
+		}
+	}
+	if subID == "" {
+		return
+	}
+	for _, r := range d["deliveries"] {
+		if r["subscription_id"] != subID {
+			continue
+		}
+		pub, ok1 := parseT(r["published_at"])
+		exp, ok2 := parseT(r["expires_at"])
+		if !ok1 || !ok2 || !exp.After(hi) {
+			continue // retention (possibly) over at the seek: no claim
+		}
+		w.stat("seek_rows_checked", 1)
+		done := r["completed_at"] != "NULL"
+		switch {
+		case pub.After(t) && done:
+			w.violate("C13", "seek-time:retained-delivery-not-made-outstanding", "Seek(%s, %s) returned OK at %s, but delivery %s of a message published at %s (after the seek time; attempts %s, retention until %s) is still completed", s.Name, ts(t), ts(hi), short(r["id"]), r["published_at"], r["attempts"], r["expires_at"])
+		case !pub.After(t) && !done:
+			w.violate("C13", "seek-time:earlier-delivery-left-outstanding", "Seek(%s, %s) returned OK at %s, but delivery %s of a message published at %s (at or before the seek time) is still outstanding", s.Name, ts(t), ts(hi), short(r["id"]), r["published_at"])
+		}
+	}
 }
 
 func (w *World) CreateSnapshot(name, sub string) {
